@@ -103,7 +103,7 @@ def build_harness(work):
     cover = []
     if os.environ.get("KB_COVER"):
         # (diagnostics only: which code of the repository the drivers of a check execute; `go tool covdata func -i=$KB_COVER`)
-        cover = ["-cover", "-coverpkg=github.com/kubewharf/kubebrain/pkg/..."]
+        cover = ["-cover", "-coverpkg=kbverif/...,github.com/kubewharf/kubebrain/..."]   # (the main package must be instrumented too, or nothing is written)
         os.makedirs(os.environ["KB_COVER"], exist_ok=True)
         GOENV["GOCOVERDIR"] = os.environ["KB_COVER"]
     rc, out = run(["go", "build", "-tags", "verif"] + cover + ["-o", binp, "./cmd/kbverif"], cwd=hdir, env=GOENV, timeout=900)
